@@ -437,6 +437,29 @@ def run(ck, prog, tier, load):
                 ck.ob("C02-e.continue-only-after-expect", b.npath.split("::")[-1], ok, b, bb, "`100 Continue` is written only on the Ready(Ok) edge of the expect future")
     ck.anchor("C02-e", n_c, 2, "writes of the interim 100 Continue response")
 
+    # ---- (g) the body adapters the framing relies on -------------------------------------------------------------
+    # SizedStream reports the length it was given, whatever it is: the head writer emits `content-length: n` only for
+    # Sized(n); None leaves a keep-alive response without any framing header
+    for b in prog.find(r"^<actix_http::body::sized_stream::SizedStream<S> as actix_http::body::message_body::MessageBody>::size$"):
+        rets = list(b.ret_exprs())
+        ok = bool(rets) and all(is_agg(e, r"BodySize::Sized$") and e[3] and e_has_field(e[3][0], r"SizedStream\.size$") for bb, e in rets)
+        ck.ob("C02-g.sized-stream-declares-size", "SizedStream::size", ok, b, rets[0][0] if rets else None, "SizedStream::size() is BodySize::Sized(self.size) on every path (also for 0)")
+    # a body adapter returns Pending only by handing on its source's Pending (which registered the waker) or after
+    # waking itself: a fresh Pending on a Ready path parks the response forever
+    n_p = 0
+    for f in ("actix-http/src/body/body_stream.rs", "actix-http/src/body/sized_stream.rs", "actix-http/src/body/message_body.rs", "actix-http/src/body/either.rs", "actix-http/src/body/boxed.rs"):
+        for b in prog.in_file(f):
+            if "::tests::" in b.npath or not b.npath.endswith("poll_next"):
+                continue
+            for bb, st, e in agg_sites(b, r"Poll::Pending$"):
+                if is_noise(b, bb):
+                    continue
+                n_p += 1
+                handed_on = any(c[0] == "discr" and e_calls(c, r"poll_next$|Future>::poll$") and lab == "Pending" for c, lab, a in b.guards(bb))
+                woke = any(is_call(b.term(d), r"Waker::wake_by_ref$|Waker::wake$") for d in b.dominators(bb))
+                ck.ob("C02-g.adapter-pending-has-waker", "%s" % "::".join(b.npath.split("::")[-3:]), handed_on or woke, b, bb, "Poll::Pending is the source's own Pending (its waker is registered) or follows a self wake-up")
+    ck.anchor("C02-g", n_p, 1, "Poll::Pending sites in the body adapters")
+
 
 import re  # noqa: E402
 
